@@ -8,7 +8,8 @@ Fault plan: PLANS[(address, method)] = list of actions consumed one per call of 
   'ok' | 'deadline_before' (handler not run, code 4) | 'deadline_after' (handler runs, reply dropped, code 4)
   | 'die' (server leaves the transport; this and every later call to it fails with code 4)
   | 'restart' (RESTART_HOOK(address) replaces the server by a fresh one, then the call is delivered to the new one)
-  | 'hold' (the reply is parked in HELD until the harness releases it).
+  | 'hold' (the reply is parked in HELD until the harness releases it)
+  | 'park' (the request itself is parked in PARKED: the handler has not run yet; release_parked() lets it through).
 Calls to an address without a started server fail with code 4 (a real client would block until its deadline).
 """
 from __future__ import annotations
@@ -23,6 +24,9 @@ _PORT = itertools.count(20000)
 PLANS = {}
 CALLS = []
 HELD = []
+PARKED = []
+LOG_REPLIES = False  # when set, the reply of a delivered call is appended to its CALLS entry
+INTERCEPT = None    # callable(address, method) -> action | None, consulted when the plan has nothing for the call
 DEAD = set()
 RESTART_HOOK = None
 STATS = {'faults_hit': 0, 'calls': 0}
@@ -65,8 +69,11 @@ def reset():
     PLANS.clear()
     del CALLS[:]
     del HELD[:]
+    del PARKED[:]
     DEAD.clear()
     RESTART_HOOK = None
+    globals()['INTERCEPT'] = None
+    globals()['LOG_REPLIES'] = False
     STATS.update(faults_hit=0, calls=0)
 
 
@@ -122,6 +129,19 @@ class _Futures:
     return call
 
 
+def release_parked(address=None):
+  """Lets the parked requests (of one server) through, in order; returns how many."""
+  n = 0
+  while True:
+    with _LOCK:
+      idx = next((i for i, h in enumerate(PARKED) if address is None or h[0] == address), None)
+      if idx is None:
+        return n
+      _, go = PARKED.pop(idx)
+    threading.Thread(target=go, daemon=True).start()     # the handler may block
+    n += 1
+
+
 def release_address(address):
   """Completes every held reply of one server; returns how many."""
   n = 0
@@ -159,10 +179,13 @@ class Client:
     def run():
       if hasattr(fut, 'set_running_or_notify_cancel') and not fut.set_running_or_notify_cancel():
         return
+      hint = INTERCEPT(address, method) if INTERCEPT is not None else None     # outside the transport lock: it may wait
       with _LOCK:
         STATS['calls'] += 1
         plan = PLANS.get((address, method))
         action = plan.pop(0) if plan else 'ok'
+        if action == 'ok' and hint:
+          action = hint
         if action != 'ok':
           STATS['faults_hit'] += 1
         entry = [address, method, action, 'running']
@@ -171,6 +194,13 @@ class Client:
           _REG.pop(address, None)
           DEAD.add(address)
         hook = RESTART_HOOK
+        if action == 'park':
+          # the request is delayed in the network: the handler only runs once the harness lets it through
+          PARKED.append((address, lambda: deliver('ok', entry, hook)))
+          return
+      deliver(action, entry, hook)
+
+    def deliver(action, entry, hook):
       try:
         if action == 'restart' and hook is not None:
           hook(address)
@@ -195,6 +225,8 @@ class Client:
           with _LOCK:
             HELD.append((fut, res, address))
           return
+        if LOG_REPLIES:
+          entry.append(res)
         fut.set_result(res)
       finally:
         entry[3] = 'done'
